@@ -141,7 +141,7 @@ AggValue(op, rows0, m, type) ==
         lower(r) == Cardinality({ q \in rows : Cmp(q[m], r[m]) = -1 })
         \* value at 0-based sorted position p (ties allowed)
         at(p) == (CHOOSE r \in rows : lower(r) <= p /\ p < lower(r) + Cardinality({ q \in rows : Cmp(q[m], r[m]) = 0 }))[m]
-    IN  CASE op = "count" -> I(n)
+    IN  CASE op = "count" -> IF n = 0 THEN Undet ELSE I(n)      \* READINGS.md 15: count of nothing (0 vs null) is not judged
           [] op = "sum" -> IF n = 0 THEN Null ELSE IF type = "Integer" THEN sum ELSE asNum(sum)
           [] op = "avg" -> IF n = 0 THEN Null ELSE mean
           [] op = "min" -> IF n = 0 THEN Null ELSE (CHOOSE r \in rows : \A q \in rows : le(r[m], q[m]))[m]
@@ -172,8 +172,9 @@ AggDS(op, ds, mode, names, having, env) ==
         gs == IF gids = {} /\ ds.rows = {} THEN {} ELSE Groups(ds, gids)
         meas == MeasOf(ds)
         outM == IF op = "count" THEN {"int_var"} ELSE meas
+        cnt(g) == Cardinality({ r \in GroupRows(ds, gids, g) : \A mm \in meas : ~IsNull(r[mm]) })
         val(g, m) == IF op = "count"
-                     THEN I(Cardinality({ r \in GroupRows(ds, gids, g) : \A mm \in meas : ~IsNull(r[mm]) }))
+                     THEN (IF cnt(g) = 0 THEN Undet ELSE I(cnt(g)))
                      ELSE AggValue(op, GroupRows(ds, gids, g), m, TypeOfComp(ds, m))
         keepG(g) == IF having = <<>> THEN TRUE ELSE having[1][g] = T
     IN  [comps |-> { c \in ds.comps : c.n \in gids }
@@ -196,8 +197,10 @@ SymDiffDS(a, b) == [comps |-> a.comps,
 
 -----------------------------------------------------------------------------
 (* Aggregate invocation inside aggr / having: value of one aggregate term on a group *)
+\* count() without operand: datapoints of the group with at least one non-null measure (READINGS.md 15)
+CountRows(rows, ds) == Cardinality({ r \in rows : \E m \in MeasOf(ds) : ~IsNull(r[m]) })
 AggTermValue(t, rows, ds) ==
-    IF t.op = "count" /\ t.x.k = "none" THEN I(Cardinality(rows))
+    IF t.op = "count" /\ t.x.k = "none" THEN (IF CountRows(rows, ds) = 0 THEN Undet ELSE I(CountRows(rows, ds)))
     ELSE LET vals == { With(r, "@v", EvalC(t.x, r, <<>>)) : r \in rows }
          IN  AggValue(t.op, vals, "@v", TypeC(t.x, TEnv(ds, <<>>)))
 
